@@ -183,6 +183,10 @@ impl PatchChain {
 
         // Collect all versions of this file in priority order (highest first)
         for (idx, entry) in self.archives.iter_mut().enumerate() {
+            if base_data.is_some() {
+                // Everything below the base file is superseded by it
+                break;
+            }
             if let Ok(Some(file_info)) = entry.archive.find_file(filename) {
                 if file_info.is_patch_file() {
                     // This is a patch - read it raw (bypass the read_file check)
